@@ -29,7 +29,7 @@ vars == <<env, ty, v, b, k>>
 
 Tails == { <<>>, <<0>>, <<255>>, <<1, 2, 3>> }
 
-Types == IF Tier = "quick" THEN Leaves \cup Level1 ELSE Leaves \cup Level1 \cup Level2
+Types == IF Tier = "quick" THEN Leaves \cup Level1 \cup Level2 ELSE Leaves \cup Level1 \cup Level2 \cup Level3
 RecTypes == { TNamed("RV"), TNamed("RB"), TNamed("Tree") }
 
 Init ==
